@@ -139,7 +139,8 @@ class Gen:
         r = self.rnd.random()
         w = 'w' + b33(self.wid)
         if r < .08:
-            w += self.rnd.choice(['ä', 'é', 'ж', 'ß'])
+            # (also letters with a separate combining accent and a compatibility character: not in Unicode NFC)
+            w += self.rnd.choice(['ä', 'é', 'ж', 'ß', 'e\u0301', 'a\u0308', '\u212b'])
         elif r < .1:
             w += '\U0001d538'
         elif r < .2:
